@@ -900,3 +900,58 @@ Example multi_object_example :
     mean_pairwise_distance p1 None true false <> mean_pairwise_distance p2 None true false.
 Proof. exact ex_history. Qed.
 Print Assumptions multi_object_example.
+
+(* ---------------------------------------------------------------------------------------- *)
+(* WAVE 9: the table well-formedness invariant, and the clone theorem without hypotheses on the tables *)
+From DV Require Import Proofs.C14W9Wf.
+
+(* whatever tree / `distances` dict is given, a successful compile_from_tree / compile_from_dict leaves
+   three tables that are dicts of dicts: no repeated key in the outer dict, none in any row
+   (_mirror_lookups included) *)
+Theorem compile_results_have_wf_tables :
+  (forall t p, compile_from_tree t = Ok p ->
+     (NoDup (dkeys (p_dist p)) /\ forall k r, dget k (p_dist p) = Some r -> NoDup (dkeys r)) /\
+     (NoDup (dkeys (p_steps p)) /\ forall k r, dget k (p_steps p) = Some r -> NoDup (dkeys r)) /\
+     (NoDup (dkeys (p_mrca p)) /\ forall k r, dget k (p_mrca p) = Some r -> NoDup (dkeys r))) /\
+  (forall d p, compile_from_dict d = Ok p ->
+     (NoDup (dkeys (p_dist p)) /\ forall k r, dget k (p_dist p) = Some r -> NoDup (dkeys r)) /\
+     (NoDup (dkeys (p_steps p)) /\ forall k r, dget k (p_steps p) = Some r -> NoDup (dkeys r)) /\
+     (NoDup (dkeys (p_mrca p)) /\ forall k r, dget k (p_mrca p) = Some r -> NoDup (dkeys r))).
+Proof. exact compile_results_wf_top. Qed.
+Print Assumptions compile_results_have_wf_tables.
+
+(* in every world reachable by a history of PhylogeneticDistanceMatrix() / clone / compile_from_tree /
+   compile_from_dict / clear, the three tables of every object are well formed *)
+Theorem reachable_tables_wf :
+  forall (ops : list mop) (w : world) (j : oid) (p : pdm),
+  run_mops ops world_empty = Ok w -> abs w j = Ok p ->
+  (NoDup (dkeys (p_dist p)) /\ forall k r, dget k (p_dist p) = Some r -> NoDup (dkeys r)) /\
+  (NoDup (dkeys (p_steps p)) /\ forall k r, dget k (p_steps p) = Some r -> NoDup (dkeys r)) /\
+  (NoDup (dkeys (p_mrca p)) /\ forall k r, dget k (p_mrca p) = Some r -> NoDup (dkeys r)).
+Proof. exact reachable_tables_wf_top. Qed.
+Print Assumptions reachable_tables_wf.
+
+(* clone_has_value_of_original with the three NoDup hypotheses discharged: in EVERY reachable world, clone
+   on an object returns a NEW object whose value is the original's at clone time *)
+Theorem clone_has_value_of_original_unconditional :
+  forall (ops : list mop) (w w' : world) (i n : oid) (p : pdm),
+  run_mops ops world_empty = Ok w -> o_clone i w = Ok (w', n) -> abs w i = Ok p ->
+  n = w_onext w /\ dget n (w_objs w) = None /\ abs w' n = Ok p.
+Proof. exact clone_value_unconditional_top. Qed.
+Print Assumptions clone_has_value_of_original_unconditional.
+
+(* its hypotheses hold of every existing object of every reachable world: clone does not fail there and
+   the object has a value *)
+Theorem clone_total_on_reachable_worlds :
+  forall (ops : list mop) (w : world) (i : oid) (o : obj),
+  run_mops ops world_empty = Ok w -> dget i (w_objs w) = Some o ->
+  exists w' n p, o_clone i w = Ok (w', n) /\ abs w i = Ok p /\ abs w' n = Ok p /\ dget n (w_objs w) = None.
+Proof. exact clone_total_top. Qed.
+Print Assumptions clone_total_on_reachable_worlds.
+
+(* a concrete instance: in the world of multi_object_example, the clone (object 1) cloned again *)
+Example clone_unconditional_satisfiable :
+  exists w w' n p, run_mops ex_ops world_empty = Ok w /\ o_clone 1 w = Ok (w', n) /\ abs w 1 = Ok p /\
+                   n = 2 /\ abs w' n = Ok p /\ length (p_pairs p) = 6%nat.
+Proof. exact clone_unconditional_example. Qed.
+Print Assumptions clone_unconditional_satisfiable.
